@@ -57,9 +57,28 @@ func ruleTabPriority(c *Ctx, r *R) {
 		r.undecided("treeSort", "-", "treeSort not found")
 		return
 	}
-	cl := c.mapLit("priority")
-	if cl == nil || c.EnclosingFunc(cl) != fd {
-		r.undecided("priority", c.Pos(fd), "the priority table literal was not found in treeSort")
+	// the table is whatever map the comparator looks the node kinds up in (a local literal or a package-level table)
+	var cl *ast.CompositeLit
+	ast.Inspect(fd.Body, func(n ast.Node) bool {
+		ix, ok := n.(*ast.IndexExpr)
+		if !ok || cl != nil {
+			return true
+		}
+		if _, isMap := c.TypeOf(ix.X).Underlying().(*types.Map); !isMap {
+			return true
+		}
+		if sel, ok := unparen(ix.Index).(*ast.SelectorExpr); !ok || sel.Sel.Name != "Symbol" {
+			return true
+		}
+		if id, ok := unparen(ix.X).(*ast.Ident); ok {
+			if v, ok := c.Obj(id).(*types.Var); ok && !c.mapMutated(v) || true {
+				cl = c.mapLit(id.Name)
+			}
+		}
+		return true
+	})
+	if cl == nil {
+		r.undecided("priority", c.Pos(fd), "the priority table the comparator indexes by node kind was not found")
 		return
 	}
 	prio := map[string]int64{}
@@ -115,7 +134,7 @@ func ruleTabPriority(c *Ctx, r *R) {
 		good := false
 		if ret.Op == "bin" && len(ret.Args) == 2 {
 			a, b := ret.Args[0], ret.Args[1]
-			if a.Op == "index" && b.Op == "index" && a.Args[0].Eq(b.Args[0]) && a.Args[0].Op == "lit" {
+			if a.Op == "index" && b.Op == "index" && a.Args[0].Eq(b.Args[0]) && (a.Args[0].Op == "lit" || a.Args[0].Op == "var") {
 				ai, bi := a.Args[1], b.Args[1]
 				switch {
 				case ret.Name == ">" && ai.Eq(elem("I")) && bi.Eq(elem("J")):
